@@ -119,31 +119,8 @@ def run(ctx):
                 roots.append(('parse_property', ptxt, pp.parse(ptxt)))
             except Exception:
                 pass
-    # rule-directed inputs of the simplifier / splitter (the functions that build new parents around existing children):
-    # every builtin function on every admissible argument shape (C14's catalogue), aggregates over set literals that mix
-    # several literals with bare references of wide type, and a sample of the small-scope grammar of the C08 stream
-    from streams.c14 import function_cases, wrap_bool
-    from streams.c08 import small_grammar
-    from gen import int_lit, float_lit, str_lit
-    wide = [('var', 'v'), ('field', ('this',), 'a'), ('index', ('field', ('this',), 'xs'), int_lit(1)), ('field', ('var', 'A'), 'x'),
-            ('field', ('field', ('this',), 'm'), 'w')]
-    fam = [wrap_bool(c) for c, _ in function_cases()]
-    for f in ('sum', 'prod', 'max', 'min', 'len'):
-        for r1 in wide:
-            for lits in ([int_lit(1), int_lit(2)], [int_lit(3)], [float_lit(0.5), int_lit(2), int_lit(7)], []):
-                for r2 in (None, wide[(wide.index(r1) + 1) % len(wide)]):
-                    members = [r1] + lits[:1] + ([r2] if r2 else []) + lits[1:]
-                    if len(members) < 1:
-                        continue
-                    fam.append(('bin', '>', ('call', f, [('set', members)]), int_lit(0)))
-                    fam.append(('bin', '=', ('bin', '+', ('call', f, [('set', members)]), r1), int_lit(2)))
-    for r1 in wide:
-        fam += [('bin', 'in', r1, ('set', [int_lit(1), int_lit(1), r1])), ('bin', '=', r1, ('bin', '+', int_lit(1), int_lit(2))),
-                ('un', 'not', ('bin', '=', r1, wide[0])), ('bin', 'and', ('bin', '=', r1, wide[1]), ('bin', 'and', ('lit', 'True', True), ('bin', '!=', r1, wide[2]))),
-                ('quant', 'all', 'i', ('set', [r1, int_lit(1)]), ('bin', 'and', ('bin', '=', ('var', 'i'), r1), ('bin', '=', r1, wide[3]))),
-                ('bin', 'implies', ('bin', '=', r1, wide[3]), ('bin', 'and', ('bin', '=', r1, wide[4]), ('lit', 'True', True)))]
-    g1, g2, g3 = small_grammar(rng, 40 if ctx.quick else 400)
-    fam += rng.sample(g1, min(len(g1), 150 if ctx.quick else 2000)) + rng.sample(g2, min(len(g2), 150 if ctx.quick else 3000)) + g3
+    from rulefam import rule_directed
+    fam = rule_directed(rng, ctx.quick)
     n_fam = 0
     for r in fam:
         try:
